@@ -45,6 +45,7 @@ def shards(tier):
         for i in range(4):
             out.append({"buf": buf, "kind": "vmdk3", "slice": [i, 4]})
         out.append({"buf": buf, "kind": "handles"})
+        out.append({"buf": buf, "kind": "vmdk-long"})
         out.append({"buf": buf, "kind": "hdd"})
     return out
 
@@ -67,6 +68,10 @@ def run_shard(shard, ctx):
             sizes = [SIZES[(n + j) % 4] for j in range(3)]
             run_case({"kind": "vmdk", "extents": [[ks[j], sizes[j], "RW", NAMES[(n + j) % 6] + str(j)] for j in range(3)]},
                      ctx)
+    elif kind == "vmdk-long":
+        # descriptors far beyond 10 / 64 KiB: many extents, or few extents behind a long comment / ddb block
+        for n, pad in ((400, 0), (3, 12000), (2, 70000), (150, 300)):
+            run_case({"kind": "vmdk-long", "n": n, "pad": pad}, ctx)
     elif kind == "handles":
         hk = ["sparse", "raw", "cowd", "sesparse"]
         for r in (1, 2, 3):
@@ -128,6 +133,8 @@ def run_case(case, ctx):
         with ctx.watch(case):
             if case["kind"] == "vmdk":
                 _case_vmdk(case, ctx, d, buf)
+            elif case["kind"] == "vmdk-long":
+                _case_vmdk_long(case, ctx, d, buf)
             elif case["kind"] == "handles":
                 _case_handles(case, ctx, buf)
             else:
@@ -199,6 +206,50 @@ def _case_vmdk(case, ctx, d, buf):
                       {"got": len(v.disks), "expected": len(parts)})
         return
     _finish(ctx, case, v, v.read_sectors, disk, bounds[:-1], buf, "vmdk.descriptor", closer, v.sector_count)
+
+
+def _case_vmdk_long(case, ctx, d, buf):
+    from dissect.hypervisor.disk.vmdk import VMDK
+
+    from mc.builders import vmdk as B
+
+    ctx.outcome("vmdk-descriptor")
+    n, pad = case["n"], case["pad"]
+    lines, parts, bounds = [], [], []
+    pos = 0
+    for xi in range(n):
+        sectors = 1 + xi % 3
+        fn = f"disk-f{xi + 1:03d}.vmdk"
+        B.build_flat(sectors, (xi % 200) + 1, slack_sectors=1).write_to(os.path.join(d, fn))
+        lines.append(("RW", sectors, "FLAT", fn, 0))
+        parts.append(B.model_flat(sectors, (xi % 200) + 1))
+        pos += sectors
+        bounds.append(pos)
+    extra = [("longcomment%d" % i, '"' + "c" * 90 + '"') for i in range(pad // 110)]
+    with open(os.path.join(d, "disk.vmdk"), "w", encoding="utf-8") as f:
+        f.write(B.descriptor_text("twoGbMaxExtentFlat", lines, extra=extra))
+    disk = ConcatDisk(parts)
+    try:
+        v = VMDK(Path(d) / "disk.vmdk")
+    except Exception as e:
+        ctx.violation(case, {"subject": "vmdk.descriptor.open", "kind": "exception", "exc": type(e).__name__},
+                      {"exception": repr(e)[:300]})
+        return
+
+    def closer():
+        for dsk in v.disks:
+            try:
+                dsk.fh.close()
+            except Exception:
+                pass
+
+    if len(v.disks) != n:
+        closer()
+        ctx.violation(case, {"subject": "vmdk.descriptor.extents", "kind": "mismatch", "long": True},
+                      {"got": len(v.disks), "expected": n})
+        return
+    sel = bounds[:2] + bounds[len(bounds) // 2: len(bounds) // 2 + 1] + bounds[-3:-1]
+    _finish(ctx, case, v, v.read_sectors, disk, sorted(set(sel)), buf, "vmdk.descriptor.long", closer, v.sector_count)
 
 
 def _case_handles(case, ctx, buf):
